@@ -111,6 +111,9 @@ def make_pair(rng, kind):
     else:
         ref = cg.make_complex(rng)
     dec = cg.jitter(rng, ref, rng.choice([0.2, 0.5, 1.0]))
+    if kind == 'mirror':
+        # the decoy is (close to) the mirror image of the reference: the covariance has a negative determinant
+        dec = cg.mirror(dec, axis=rng.choice([0, 1, 2]))
     if rng.random() < 0.5:
         dec = cg.rigid_move(rng, dec, which=rng.choice(['all', 'B']))
     if kind == 'incomplete':
@@ -122,8 +125,8 @@ def extra_checks(ctx):
     rng = ctx.rng
     res = []
     d = ctx.tmpdir()
-    n = ctx.scale(14, 120)
-    kinds = ['plain', 'equal', 'rankflip', 'negative', 'incomplete']
+    n = ctx.scale(21, 140)
+    kinds = ['plain', 'equal', 'rankflip', 'negative', 'incomplete', 'mirror', 'mirror']
     compared = discards = 0
     for k in range(n):
         kind = kinds[k % len(kinds)]
